@@ -39,6 +39,25 @@ Definition sx_lret (r : lret element) : sx :=
 Definition mk_root_el' (r : pystr * action) : element := (AStr (fst r), snd r).
 Definition parse_raw_el' (p : pystr) : option (list element) := finish (run init_pst (skipn 4 p)).
 
+(* in the generated traces LCallObj k / LMutate k name "the object operation number k returned"
+   (an operation that returned no object: the call raises); resolved here to heap identities *)
+Fixpoint lresolve (maxsize : nat) (w : lworld element) (rets : list (option nat)) (ops : list (lop element))
+  : list (lop element) :=
+  match ops with
+  | [] => []
+  | o :: r =>
+      let ref k := match nth k rets None with Some id => id | None => List.length (lw_heap element w) end in
+      let o' := match o with
+                | LCallObj k re => LCallObj (ref k) re
+                | LMutate k l => LMutate (ref k) l
+                | x => x
+                end in
+      let '(x, w') := lstep element mk_root_el' parse_raw_el' maxsize w o' in
+      o' :: lresolve maxsize w' (rets ++ [match x with LRet id _ => Some id | _ => None end]) r
+  end.
+Definition MAXSIZE : nat := (1024 * 128)%nat.
+Definition lres (ops : list (lop element)) : list (lop element) := lresolve MAXSIZE (lw_init element) [] ops.
+
 (* a trace of _path_to_elements calls from an empty lru_cache; also the cache's
    (hits, misses, currsize) at the end of it *)
 Definition lhit (w : lworld element) (o : lop element) : bool :=
@@ -58,10 +77,10 @@ Fixpoint lhits (maxsize : nat) (w : lworld element) (ops : list (lop element)) :
       | _, _ => (h, m)
       end
   end.
-Definition c09_lru_trace (ops : list (lop element)) : sx :=
-  let maxsize := (1024 * 128)%nat in
-  let '(rs, w) := lrun element mk_root_el' parse_raw_el' maxsize (lw_init element) ops in
-  let '(h, m) := lhits maxsize (lw_init element) ops in
+Definition c09_lru_trace (ops0 : list (lop element)) : sx :=
+  let ops := lres ops0 in
+  let '(rs, w) := lrun element mk_root_el' parse_raw_el' MAXSIZE (lw_init element) ops in
+  let '(h, m) := lhits MAXSIZE (lw_init element) ops in
   SL [SL (map sx_lret rs); sx_nat h; sx_nat m; sx_nat (List.length (lw_cache element w))].
 (* traces on which some literal_eval leaves the modelled sub-language are not compared *)
 Definition lru_supported (ops : list (lop element)) : bool :=
@@ -71,3 +90,17 @@ Definition lru_supported (ops : list (lop element)) : bool :=
                     end) ops.
 Definition c09_lru_trace_or (ops : list (lop element)) (expected : sx) : sx :=
   if lru_supported ops then c09_lru_trace ops else expected.
+
+(* the same trace without object identities and cache statistics: what the property demands *)
+Definition sx_lret_content (r : lret element) : sx :=
+  match r with
+  | LRet _ o => sx_hobj o
+  | LRaise => SA "RAISE"
+  | LNone => SA "-"
+  end.
+Definition c09_lru_content (ops : list (lop element)) : sx :=
+  SL (map sx_lret_content (fst (lrun element mk_root_el' parse_raw_el' MAXSIZE (lw_init element) (lres ops)))).
+Definition c09_lru_content_or (ops : list (lop element)) (expected : sx) : sx :=
+  if lru_supported ops then c09_lru_content ops else expected.
+Definition count_lru_full_agree (l : list (list (lop element) * sx)) : nat :=
+  List.length (filter (fun c => sx_eqb (c09_lru_trace_or (fst c) (snd c)) (snd c)) l).
